@@ -542,6 +542,75 @@ def _concrete_pairs(repo: Repo, classes: List[ClassInfo]) -> List[Tuple[str, str
     return out
 
 
+def _guard_eval(repo: Repo, fi: FuncInfo, a: str, b: str) -> str:
+    """Outcome class of a comparison dunder for self of class ``a`` and other of class ``b`` when its isinstance tests are
+    combined in a way the Guard abstraction does not cover: 'compare' (the answer depends on the values), 'False' or
+    'NotImplemented'.  isinstance atoms are decided from the class hierarchy, everything else is value dependent."""
+    s_n, o_n = fi.params[0], fi.params[1]
+    a_mro = {c.name for c in repo.mro(a)}
+    b_mro = {c.name for c in repo.mro(b)}
+
+    def type_of(e: ast.AST) -> Optional[str]:
+        if isinstance(e, ast.Call) and isinstance(e.func, ast.Name) and e.func.id == "type" and len(e.args) == 1 and isinstance(e.args[0], ast.Name):
+            return e.args[0].id
+        ch = attr_chain(e)
+        if ch and len(ch) == 2 and ch[1] == "__class__":
+            return ch[0]
+        return None
+
+    def ev(e: ast.AST):
+        if isinstance(e, ast.Constant) and isinstance(e.value, bool):
+            return e.value
+        if isinstance(e, ast.UnaryOp) and isinstance(e.op, ast.Not):
+            v = ev(e.operand)
+            return (not v) if isinstance(v, bool) else "?"
+        if isinstance(e, ast.BoolOp):
+            vs = [ev(x) for x in e.values]
+            if isinstance(e.op, ast.And):
+                return False if any(v is False for v in vs) else (True if all(v is True for v in vs) else "?")
+            return True if any(v is True for v in vs) else (False if all(v is False for v in vs) else "?")
+        if isinstance(e, ast.Call) and isinstance(e.func, ast.Name) and e.func.id == "isinstance" and len(e.args) == 2 and isinstance(e.args[0], ast.Name):
+            subj = e.args[0].id
+            subj_mro = b_mro if subj == o_n else a_mro if subj == s_n else None
+            if subj_mro is None:
+                return "?"
+            spec = e.args[1]
+            t = type_of(spec)
+            if t == s_n:
+                return a in subj_mro
+            if t == o_n:
+                return b in subj_mro
+            names = [x.id for x in (spec.elts if isinstance(spec, ast.Tuple) else [spec]) if isinstance(x, ast.Name)]
+            if names and len(names) == len(spec.elts if isinstance(spec, ast.Tuple) else [spec]):
+                return bool(set(names) & subj_mro)
+        return "?"
+
+    def block(stmts) -> Optional[str]:
+        for st in stmts:
+            if isinstance(st, ast.Return):
+                if isinstance(st.value, ast.Name) and st.value.id == "NotImplemented":
+                    return "NotImplemented"
+                v = ev(st.value) if st.value is not None else "?"
+                return "False" if v is False else "compare"
+            if isinstance(st, ast.If):
+                v = ev(st.test)
+                if v == "?":
+                    return "compare"
+                r = block(st.body if v else st.orelse)
+                if r is not None:
+                    return r
+                continue
+            if isinstance(st, (ast.Assign, ast.AnnAssign, ast.Expr, ast.Pass)):
+                continue
+            raise AnalysisError(f"{fi.where}: statement `{unparse(st)[:50]}` outside the guard fragment")
+        return None
+
+    r = block(fi.body)
+    if r is None:
+        raise AnalysisError(f"{fi.where}: falls off the end")
+    return r
+
+
 def _eq_outcome(repo: Repo, a: str, b: str) -> str:
     """Outcome class of ``x == y`` for x of class a, y of class b: 'compare' or 'False'."""
     fa, fb = effective(repo, a, "__eq__"), effective(repo, b, "__eq__")
@@ -550,7 +619,15 @@ def _eq_outcome(repo: Repo, a: str, b: str) -> str:
     for f, s, o in order:
         if f is None:
             return "compare"  # builtin tuple equality accepts any tuple
-        g = guard_of(f)
+        try:
+            g = guard_of(f)
+        except AnalysisError:
+            r = _guard_eval(repo, f, s, o)
+            if r == "compare":
+                return "compare"
+            if r == "False":
+                return "False"
+            continue
         if g.accepts(repo, s, o):
             return "compare"
         if g.reject == "False":
@@ -585,6 +662,16 @@ def rule_r4(ctx: Ctx, classes: List[ClassInfo], hashinfo: Dict[str, HashInfo]) -
             stack.extend(adj[x] - comp)
         seen |= comp
         groups.append(comp)
+    pairs = _concrete_pairs(repo, classes)
+    for comp in groups:
+        # inside one equality group every two members must be comparable: if x == m and m == y can both hold for the same
+        # field values while x == y is rejected outright, equality is not transitive
+        for a, b in pairs:
+            if a in comp and b in comp and _eq_outcome(repo, a, b) == "False" and _eq_outcome(repo, b, a) == "False":
+                bridge = sorted(c for c in comp if c not in (a, b) and "compare" in (_eq_outcome(repo, a, c), _eq_outcome(repo, c, a)) and "compare" in (_eq_outcome(repo, b, c), _eq_outcome(repo, c, b)))
+                if bridge:
+                    fa = effective(repo, a, "__eq__") or effective(repo, b, "__eq__")
+                    ctx.violation("C08-R4", fa, fa.node, f"equality is not transitive: a {a} and a {b} with the same field values are never equal to each other, although each can equal the same {bridge[0]} (and hash like it)")
     for comp in groups:
         roots: Dict[str, str] = {}
         for c in sorted(comp):
